@@ -1152,3 +1152,85 @@ def expected_markers(mod) -> dict[str, list[int]]:
             if mark in line:
                 out.setdefault(tag + ":" + line.split(mark, 1)[1].strip().split()[0], []).append(i)
     return out
+
+
+# ---------------------------------------------------------------------------------------------------
+# sanitiser semantics by interpretation (added for C49 R49.2 / C50 R50.1; nothing above depends on it)
+
+CC_POINTS = frozenset(range(0, 32)) | {127} | frozenset(range(128, 160))
+SPACING_POINTS = frozenset({9, 10, 13})
+
+
+def translation_table_names(mod) -> set:
+    """Module-level names that hold a character translation table: assigned from ``str.maketrans(...)`` at module level, plus the module-level
+    dict names those statements are built from (``X.copy()``, ``str.maketrans(X)``), transitively."""
+    assigned = {}
+    for st in mod.tree.body:
+        if isinstance(st, ast.Assign):
+            for t in st.targets:
+                if isinstance(t, ast.Name):
+                    assigned.setdefault(t.id, []).append(st.value)
+        elif isinstance(st, ast.AnnAssign) and isinstance(st.target, ast.Name) and st.value is not None:
+            assigned.setdefault(st.target.id, []).append(st.value)
+    names = {n for n, vs in assigned.items() if any(isinstance(v, ast.Call) and norm(v.func) == "str.maketrans" for v in vs)}
+    todo = list(names)
+    while todo:
+        n = todo.pop()
+        for v in assigned.get(n, []):
+            for x in ast.walk(v):
+                if isinstance(x, ast.Name) and x.id in assigned and x.id not in names and any(isinstance(w, (ast.Dict, ast.DictComp)) or (isinstance(w, ast.Call) and isinstance(w.func, ast.Attribute) and w.func.attr == "copy") for w in assigned[x.id]):
+                    names.add(x.id)
+                    todo.append(x.id)
+    return names
+
+
+def control_character_domain() -> list:
+    """Representative inputs for a control-character sanitiser.  The abstract domain is "which classes of characters occur together": clean text,
+    C0 controls other than TAB/LF/CR, the spacing controls TAB/LF/CR, DEL, C1 controls.  Every control code point occurs alone, surrounded by
+    clean text, and every non-empty combination of the four control classes occurs with clean text around and between its members."""
+    import itertools
+
+    out = []
+    for cp in sorted(CC_POINTS):
+        out.append(chr(cp))
+        out.append(f"GET /a{chr(cp)}b é中")
+    reps = {"C0": "\x1b\x00\x07", "SP": "\t\r\n", "DEL": "\x7f", "C1": "\x9b\x80\x9f"}
+    for r in range(1, 5):
+        for combo in itertools.combinations(sorted(reps), r):
+            out.append("x" + "y".join(reps[c] for c in combo) + "z")
+            out.append("".join(reps[c] for c in reversed(combo)))
+    out += ["", "plain text é中\U0001f600", "a" * 200 + "\x9d0;title\x9c"]
+    return out
+
+
+def interpret_sanitiser(model, rel, fname, keep_kw="keep_spacing", trusted=None):
+    """Interpret ``rel::fname(text, keep_spacing=<bool>)`` from its AST (pyint) on ``control_character_domain()``.  The module-level translation
+    tables are folded from the module's statements (``fold_tables``) and handed to the interpreter as bindings of the module globals.
+    -> {keep: (leaked code points, example input, output or exception text)}; AnalysisError when a construct is outside pyint / the folding."""
+    import re as _re
+
+    from ..pyint import Interp
+    from ..pyint import Raised
+
+    mod = model.module(rel)
+    names = translation_table_names(mod)
+    tables = fold_tables(mod.tree.body, names, rel) if names else {}
+    res = {}
+    for keep in (True, False):
+        leaked, example = set(), None
+        for text in control_character_domain():
+            it = Interp(model, trusted_modules=dict({"re": _re}, **(trusted or {})))
+            for n, t in tables.items():
+                it.overrides[(rel, n)] = dict(t)
+            try:
+                out = it.call(rel, fname, text, **{keep_kw: keep})
+            except Raised as r:
+                raise AnalysisError(f"{rel}::{fname} raises {r} on {text[:20]!r} (sanitiser domain)")
+            if not isinstance(out, str):
+                raise AnalysisError(f"{rel}::{fname} returns {type(out).__name__}, not str, in the interpreted model")
+            bad = {ord(c) for c in out if ord(c) in CC_POINTS and ord(c) not in SPACING_POINTS}  # TAB / LF / CR are allowed by the properties
+            if bad and example is None:
+                example = (text, out)
+            leaked |= bad
+        res[keep] = (leaked, example)
+    return res, tables
